@@ -138,32 +138,44 @@ func (t *table) positions(cols []string) ([]int, *pgErr) {
 	return pos, nil
 }
 
-// sameKey reports whether a and b agree on all positions with no NULLs involved.
-func sameKey(a, b []Value, pos []int) bool {
-	for _, p := range pos {
-		if c, ok := compare(a[p], b[p]); !ok || c != 0 {
-			return false
-		}
+func pick(v []Value, pos []int) []Value {
+	out := make([]Value, len(pos))
+	for i, p := range pos {
+		out[i] = v[p]
 	}
-	return true
+	return out
 }
 
-// conflict checks v against the table's unique indexes (NULLs never conflict).
-func (t *table) conflict(v []Value, only *Index) *pgErr {
-	for _, ix := range t.idx {
-		if !ix.Unique || (only != nil && ix.Name != only.Name) {
-			continue
-		}
-		pos, perr := t.positions(ix.Cols)
-		if perr != nil {
-			return perr
-		}
-		for _, r := range t.rows {
-			if sameKey(r.v, v, pos) {
-				return errf("23505", "duplicate key value violates unique constraint %q", ix.Name)
+// dup reports a violation of unique index ix among t.rows plus extra. Rows
+// with a NULL in an indexed column never conflict. Values are canonical, so
+// their Go syntax is a faithful key.
+func (t *table) dup(ix Index, extra []row) *pgErr {
+	pos, perr := t.positions(ix.Cols)
+	if perr != nil || !ix.Unique {
+		return perr
+	}
+	seen := map[string]bool{}
+	for _, rows := range [][]row{t.rows, extra} {
+		for _, r := range rows {
+			if k := pick(r.v, pos); !slices.Contains(k, nil) {
+				if ks := fmt.Sprintf("%#v", k); seen[ks] {
+					return errf("23505", "duplicate key value violates unique constraint %q", ix.Name)
+				} else {
+					seen[ks] = true
+				}
 			}
 		}
 	}
+	return nil
+}
+
+func (t *table) insert(rows []row, check bool) *pgErr {
+	for _, ix := range t.idx {
+		if perr := t.dup(ix, rows); perr != nil && check {
+			return perr
+		}
+	}
+	t.rows = append(t.rows, rows...)
 	return nil
 }
 
@@ -196,17 +208,13 @@ func (db *DB) apply(e effect, check bool) *pgErr {
 	}
 	switch e.kind {
 	case 'i':
-		for _, r := range e.rows {
-			if n := len(t.cols) - len(r.v); n > 0 { // column added concurrently
-				r.v = append(slices.Clone(r.v), t.defs[len(r.v):]...)
+		rows := slices.Clone(e.rows)
+		for i, r := range rows {
+			if len(r.v) < len(t.cols) { // column added concurrently
+				rows[i].v = append(slices.Clone(r.v), t.defs[len(r.v):]...)
 			}
-			if check {
-				if perr := t.conflict(r.v, nil); perr != nil {
-					return perr
-				}
-			}
-			t.rows = append(t.rows, r)
 		}
+		return t.insert(rows, check)
 	case 'd':
 		t.rows = slices.DeleteFunc(t.rows, func(r row) bool { return e.ids[r.id] })
 	case 'x':
@@ -217,16 +225,8 @@ func (db *DB) apply(e effect, check bool) *pgErr {
 				}
 			}
 		}
-		pos, perr := t.positions(e.idx.Cols)
-		if perr != nil {
+		if perr := t.dup(e.idx, nil); perr != nil && (check || perr.code != "23505") {
 			return perr
-		}
-		for i := range t.rows {
-			for j := 0; j < i && e.idx.Unique && check; j++ {
-				if sameKey(t.rows[i].v, t.rows[j].v, pos) {
-					return errf("23505", "could not create unique index %q: duplicate key", e.idx.Name)
-				}
-			}
 		}
 		t.idx = append(t.idx, e.idx)
 	case 'a':
@@ -251,6 +251,18 @@ func rat(n Num) *big.Rat {
 		return new(big.Rat)
 	}
 	return r
+}
+
+func numCmp(a, b Num) int {
+	if strings.Contains(string(a+b), ".") || a == "" || b == "" {
+		return rat(a).Cmp(rat(b))
+	}
+	if na, nb := a[0] == '-', b[0] == '-'; na != nb {
+		return bint(nb) - bint(na)
+	} else if c := len(a) - len(b); c != 0 { // canonical integers: longer means larger magnitude
+		return (bint(c > 0)*2 - 1) * (1 - 2*bint(na))
+	}
+	return strings.Compare(string(a), string(b)) * (1 - 2*bint(a[0] == '-'))
 }
 
 // normNum brings a decimal string into canonical Num form.
@@ -294,7 +306,7 @@ func compare(a, b Value) (c int, ok bool) {
 		}
 	case Num:
 		if y, ok := b.(Num); ok {
-			return rat(x).Cmp(rat(y)), true
+			return numCmp(x, y), true
 		}
 	case Interval:
 		if y, ok := b.(Interval); ok {
@@ -642,11 +654,10 @@ func (s *Server) InsertRow(name string, vals map[string]Value) error {
 			return perr
 		}
 	}
-	if perr := t.conflict(v, nil); perr != nil {
+	s.nextRow++
+	if perr := t.insert([]row{{s.nextRow, v}}, true); perr != nil {
 		return perr
 	}
-	s.nextRow++
-	t.rows = append(t.rows, row{s.nextRow, v})
 	return nil
 }
 
@@ -768,7 +779,7 @@ func (c *conn) exec(st *stmt, args []Value, data [][]Value) (*result, *pgErr) {
 		return nil, errf("25P02", "current transaction is aborted, commands ignored until end of transaction block")
 	}
 	r := &run{db: c.view(), args: args, c: c}
-	res, perr := r.stmt(st, data)
+	res, perr := r.safely(func() (*result, *pgErr) { return r.stmt(st, data) })
 	if perr != nil {
 		return nil, perr
 	}
